@@ -71,6 +71,7 @@ int main(int argc, char **argv) {
     std::vector<uint32_t> w; if (!tape_load(argv[2], w)) { fprintf(stderr, "cannot read %s\n", argv[2]); return 3; }
     Tape t(w); Report r; arm_case_timer(true); bool ok = prop_run(t, r); arm_case_timer(false);
     if (ok && case_leaked()) { ok = r.fail("the case leaked heap memory (LeakSanitizer report above): a clear function did not release everything"); }
+    printf("OUT_HASH=%016llx\n", (unsigned long long)r.out_hash);
     if (ok) { printf("REPLAY property=%s HELD labels:", prop_id()); for (auto &kv : r.labels) printf(" %s=%ld", kv.first.c_str(), kv.second); printf("\n"); for (auto &s : r.samples) printf("  sample: %s\n", s.c_str()); return 0; }
     printf("REPLAY property=%s FAILS kind=%s: %s\n", prop_id(), r.fail_kind.c_str(), r.fail_msg.c_str());
     return r.fail_kind == "harness" ? 2 : 1;
@@ -116,6 +117,18 @@ int main(int argc, char **argv) {
     unlink(argv[3]);
     return ok ? 0 : 1;
   }
-  fprintf(stderr, "usage: %s --worker out.json cur.tape | --replay file.tape\n", argv[0]);
+  if (argc >= 3 && !strcmp(argv[1], "--hashrun")) {
+    // run the generated cases of RC_PARAMS and write one line per case: <output hash> <ok> <tape words...>; no shrinking, no coverage report.
+    // The tapes depend only on the seed, so differently built binaries of the same property see the same cases.
+    FILE *f = fopen(argv[2], "w"); if (!f) return 3; int scale = 4; if (const char *e = getenv("VERIF_TAPE_SCALE")) scale = atoi(e); int prefix = 24; if (const char *e = getenv("VERIF_TAPE_PREFIX")) prefix = atoi(e);
+    auto elem = rc::gen::resize(100, rc::gen::oneOf(rc::gen::inRange<uint32_t>(0, 4), rc::gen::inRange<uint32_t>(0, 64), rc::gen::inRange<uint32_t>(0, 4096), rc::gen::arbitrary<uint32_t>()));
+    auto headgen = rc::gen::container<std::vector<uint32_t>>((std::size_t)prefix, elem); auto tailgen = rc::gen::scale((double)scale, rc::gen::container<std::vector<uint32_t>>(elem));
+    g_leakcheck = false;
+    rc::check(prop_id(), [&]() { std::vector<uint32_t> w = *headgen; { std::vector<uint32_t> tl = *tailgen; w.insert(w.end(), tl.begin(), tl.end()); }
+      save_current(w); Tape t(w); Report local; arm_case_timer(true); bool held = prop_run(t, local); arm_case_timer(false);
+      fprintf(f, "%016llx %d", (unsigned long long)local.out_hash, held ? 1 : 0); for (uint32_t x : w) fprintf(f, " %u", x); fprintf(f, "\n"); fflush(f); });
+    fclose(f); return 0;
+  }
+  fprintf(stderr, "usage: %s --worker out.json cur.tape | --replay file.tape | --hashrun out.txt\n", argv[0]);
   return 3;
 }
